@@ -9,6 +9,7 @@ NaN/inf/-0.0 and calendar values survive a replay file unchanged.
 """
 
 import datetime
+import os
 import itertools
 import numpy as np
 
@@ -40,7 +41,32 @@ KINDS = {
 
 
 def np_array(kind, toks):
-    """Build the plain NumPy array a user would hand to dataiter."""
+    """Build the NumPy array a user would hand to dataiter: plain (contiguous, writable) unless the shard asked,
+    through MC_ARRAY_FORM in its __env__, for another FORM of the same values (read-only, a strided view, a view
+    with a negative stride) - results must not depend on it and the caller's array must never be written to."""
+    a = _np_array(kind, toks)
+    form = os.environ.get("MC_ARRAY_FORM")
+    if not form:
+        return a
+    if form == "readonly":
+        a.flags.writeable = False
+        return a
+    if form == "strided":
+        big = np.empty(2 * len(a), dtype=a.dtype)
+        if a.dtype == object:
+            big[:] = None
+        big[::2] = a
+        v = big[::2]
+        v.flags.writeable = False
+        return v
+    if form == "reversed":
+        v = a[::-1].copy()[::-1]
+        v.flags.writeable = False
+        return v
+    raise ValueError(form)
+
+
+def _np_array(kind, toks):
     if kind == "f8":
         return np.array([np.nan if t is None else float(t) for t in toks], dtype="float64")
     if kind == "i8":
